@@ -1,0 +1,9 @@
+//go:build verif
+
+package fasthttp
+
+// Exports for the C01 correspondence harness (/verif/harness/c01).
+
+// VerifC01Preparsed reports whether the request body was pre-parsed into a
+// multipart form by ContinueReadBody (the body bytes are then not in the body buffer).
+func VerifC01Preparsed(req *Request) bool { return req.multipartForm != nil }
